@@ -8,12 +8,14 @@ JSON encoding
 -------------
 key
     ``{"f": "tuple", "k": [elem, ...]}``   region / full subscript; elem = int | {"s": [start, stop]} |
-                                            {"l": [i, ...]} (python list) | {"a": [i, ...]} (1-D ndarray)
+                                            {"l": [i, ...]} (python list) | {"a": [i, ...]} (1-D ndarray);
+                                            optional ``"np": true`` = ints are passed as numpy.int64
     ``{"f": "subs", "rows": [[...], ...]}`` p x M array of subscripts (distinct rows)
     ``{"f": "lin", "i": int}`` · ``{"f": "linlist", "i": [...]}`` · ``{"f": "linarr", "i": [...]}`` ·
     ``{"f": "linslice", "s": [start, stop]}``   linear index forms (first index fastest)
 rhs
-    ``{"r": "scalar", "v": float, "int": bool}``          scalar (python float, or python int when "int")
+    ``{"r": "scalar", "v": float, "int": bool}``          scalar (python float, python int when "int",
+                                                           numpy.float64 when "np")
     ``{"r": "vec", "v": [...]}``                           one value per subscript row / linear index
     ``{"r": "array", "v": [...F-order...], "as": "ndarray"|"tensor", "sp": "sorted"|"reverse"}``
                                                            array of the region's kept-mode shape
@@ -208,7 +210,7 @@ def py_key(key):
         for e in key["k"]:
             k = elem_kind(e)
             if k == "int":
-                out.append(int(e))
+                out.append(np.int64(e) if key.get("np") else int(e))
             elif k == "slice":
                 out.append(slice(e["s"][0], e["s"][1]))
             elif k == "list":
@@ -238,7 +240,9 @@ def py_rhs(rhs, holder: str, region_shape: Optional[Sequence[int]] = None):
     """Right-hand side object in the form documented for ``holder`` ('T' dense, 'S' sparse)."""
     r = rhs["r"]
     if r == "scalar":
-        return int(rhs["v"]) if rhs.get("int") else float(rhs["v"])
+        if rhs.get("int"):
+            return int(rhs["v"])
+        return np.float64(rhs["v"]) if rhs.get("np") else float(rhs["v"])
     if r == "vec":
         v = np.array(rhs["v"], dtype=float)
         if holder == "S":
@@ -286,7 +290,7 @@ def bounded(shape: Sequence[int], key):
             out.append(dict(s=[0 if a is None else a, cur if b is None else b]))
         else:
             out.append(e)
-    return dict(f="tuple", k=out)
+    return dict(key, k=out)
 
 
 # --------------------------------------------------------------------------
@@ -410,9 +414,9 @@ def sparse_tags(op: str, shape: Sequence[int], key, rhs, stored_subs: np.ndarray
             tags.append("sprhs-order-growth")
         if _buggy_m_consulted_wrong(shape, key, rs):
             tags.append("sprhs-list-extent")
-        if stored_shape is not None and any(
-            is_int(e) and e < 0 and m < len(stored_shape) and type(stored_shape[m]) is not int
-            for m, e in enumerate(key["k"])
-        ):
-            tags.append("sprhs-negint-npshape")
+        ints = [(m, e) for m, e in enumerate(key["k"]) if is_int(e)]
+        if (key.get("np") and ints) or (stored_shape is not None and any(
+            e < 0 and m < len(stored_shape) and type(stored_shape[m]) is not int for m, e in ints
+        )):
+            tags.append("sprhs-npint")
     return tags
